@@ -1410,3 +1410,76 @@ func boundTo(v ssa.Value, target ssa.Value, bind map[*ssa.Parameter]ssa.Value) b
 	}
 	return false
 }
+
+// helperPostFacts: facts that hold at `at` because a dominating branch tested the result of a same-package
+// helper: when `at` is behind "result i of h(...) is (not) the constant c", the facts dominating every return
+// of h that can produce such a result hold when h returned (about h's own values - rules that match facts by
+// shape, such as "a load of inflate.bitsLen compared with 0", can use them; rules matching SSA values cannot).
+func (p *Program) helperPostFacts(at ssa.Instruction) []Fact {
+	var out []Fact
+	fn := at.Parent()
+	for _, f := range dominatingFacts(at) {
+		var v ssa.Value
+		want, neg := int64(0), false
+		switch {
+		case f.Y == nil:
+			v, want, neg = f.X, 1, f.Op == token.NEQ
+		default:
+			if k, ok := constInt(f.Y); ok && (f.Op == token.EQL || f.Op == token.NEQ) {
+				v, want, neg = f.X, k, f.Op == token.NEQ
+			} else if k, ok := constInt(f.X); ok && (f.Op == token.EQL || f.Op == token.NEQ) {
+				v, want, neg = f.Y, k, f.Op == token.NEQ
+			}
+		}
+		if v == nil {
+			continue
+		}
+		var call *ssa.Call
+		idx := 0
+		switch x := v.(type) {
+		case *ssa.Call:
+			call = x
+		case *ssa.Extract:
+			if c, ok := x.Tuple.(*ssa.Call); ok {
+				call, idx = c, x.Index
+			}
+		}
+		if call == nil {
+			continue
+		}
+		h := call.Common().StaticCallee()
+		if h == nil || h.Blocks == nil || h.Pkg != fn.Pkg || !p.InRepo(h) {
+			continue
+		}
+		var common []Fact
+		first := true
+		for _, b := range h.Blocks {
+			for _, in := range b.Instrs {
+				ret, ok := in.(*ssa.Return)
+				if !ok || idx >= len(ret.Results) {
+					continue
+				}
+				if k, isK := constInt(ret.Results[idx]); isK && ((k == want) == neg) {
+					continue // this return cannot produce the tested outcome
+				}
+				fs := dominatingFacts(ret)
+				if first {
+					common, first = fs, false
+					continue
+				}
+				var keep []Fact
+				for _, a := range common {
+					for _, b2 := range fs {
+						if a.Op == b2.Op && a.X == b2.X && a.Y == b2.Y {
+							keep = append(keep, a)
+							break
+						}
+					}
+				}
+				common = keep
+			}
+		}
+		out = append(out, common...)
+	}
+	return out
+}
